@@ -41,9 +41,30 @@ TReset == /\ IsEv("reset") /\ \A t \in Threads : pc[t] = "idle"
           /\ slot' = [k \in Keys |-> 0] /\ once' = [k \in Keys |-> "inc"] /\ built' = [k \in Keys |-> 0]
           /\ pc' = [t \in Threads |-> "idle"] /\ arg' = [t \in Threads |-> 0] /\ mine' = [t \in Threads |-> 0]
           /\ ret' = [t \in Threads |-> 0] /\ calls' = [t \in Threads |-> 0] /\ addr' = [k \in Keys |-> -1]
+(* the next logged event of thread t at or after position i (look-ahead used only to prune the search) *)
+RECURSIVE NextEvOf(_, _)
+NextEvOf(t, i) == IF i > Len(Rec) THEN "none"
+                  ELSE IF Rec[i].ev = "reset" THEN "none"
+                  ELSE IF Rec[i].t = t THEN Rec[i].ev ELSE NextEvOf(t, i + 1)
+(* sound pruning: a thread may win the Once (EnterOnce taking the "inc" -> "run" branch, i.e. reaching "construct")
+   only if its next logged event is the constructor hook; conversely a thread whose next event is `construct`
+   has nothing else to do.  Behaviours violating this can never consume the log. *)
+TSilentOf(t) == \/ L!Check1(t)
+                \/ (L!EnterOnce(t) /\ ((pc'[t] = "construct") <=> (NextEvOf(t, l) = "construct")))
+                \/ L!Publish(t) \/ L!Publish2(t) \/ L!Complete(t) \/ L!Check2(t)
+(* Lazy scheduling of the unlogged steps (a second, sound pruning that makes the search linear): an internal step is
+   taken only when it is needed to enable the next logged event e = Rec[l]: the steps of e's own thread, and - when
+   that thread is blocked on the Once - the Publish / Complete steps of the thread running the constructor of the
+   same key.  Delaying an internal step never turns an explainable history into an unexplainable one: a later
+   Check1 / EnterOnce of a non-constructing thread can only find the slot set / the Once done instead of empty /
+   running, which leads to the same response; the constructing thread's own Check1 / EnterOnce still precede
+   every Publish of its key. *)
+Needed == IF l > Len(Rec) \/ Rec[l].ev = "reset" THEN {}
+          ELSE LET te == Rec[l].t IN
+               {te} \cup (IF Rec[l].ev = "resp" /\ pc[te] = "once"
+                          THEN {c \in Threads : pc[c] \in {"publish", "publish2", "complete"} /\ arg[c] = arg[te]} ELSE {})
 TSilent == /\ l <= Len(Rec) /\ UNCHANGED <<l, addr>>
-           /\ \E t \in Threads : pc[t] \notin {"idle"} /\
-                (L!Check1(t) \/ L!EnterOnce(t) \/ L!Publish(t) \/ L!Publish2(t) \/ L!Complete(t) \/ L!Check2(t))
+           /\ \E t \in Needed : pc[t] \notin {"idle", "ret", "construct"} /\ TSilentOf(t)
 TNext == TInv \/ TConstruct \/ TResp \/ TReset \/ TSilent
 TSpec == TInit /\ [][TNext]_tvars
 (* remember the furthest event consumed (reported on rejection) *)
